@@ -21,6 +21,7 @@ from xgi.exception import XGIError
 from .. import fn
 from .. import hg as MH
 from .. import dhg as MD
+from .. import c19_r2 as R2
 from ..core import (Infra, TRUSTED_COMMON, VERIF, build_and_audit, canon, dec_id, enc_attrs, enc_attrs_req, enc_id,
                     finish, idkey, jhash, run_driver)
 
@@ -352,8 +353,6 @@ def pred_def(req, snap, exc):
         if f == "from_max_simplices":
             if cls != "sc":
                 return fails if o == "err:lib" else [("wrong-error", o)]
-            if first_maximal_is_string_first(req["H"]):
-                return fails                      # format sniffing of add_edges_from on mixed str / non-str labels
             return [("raised", f"{type(exc).__name__}: {exc}")]
         if f == "lch" and not nodes:
             return fails                          # the null network has no component: raising or returning it are both fine
@@ -464,13 +463,11 @@ def pred_def(req, snap, exc):
         comps = components(nodes, mem)
         if comps:
             big = max(len(c) for c in comps)
-            first = next(c for c in comps if len(c) == big)
             if set(rn) not in [set(c) for c in comps]:
                 bad("not-a-component", f"{rn} vs {comps}")
             elif len(rn) != big:
                 bad("not-largest", f"{rn} vs {comps}")
-            elif set(rn) != set(first):
-                bad("not-first-largest", f"{rn} vs {comps}")
+            # (the statement says "a largest component" and the documentation promises no tie-break: any one is accepted)
         want_n = [n for n in nodes if n in set(rn)]
         want_e = [e for e in eo if mem[e] <= set(rn)]
         same_on("nodes", rn, want_n); same_on("edges", reo, want_e)
@@ -520,7 +517,6 @@ def conn_pred(req, snap, nodes, mem):
         elif snap["connected"] != (len(exp) == 1):
             bad("is_connected/is-connected-wrong", f"is_connected = {snap['connected']}, the classes are {exp}")
         big = max(len(c) for c in exp)
-        first = next(c for c in exp if len(c) == big)
         L = snap["largest"]
         if isErr(L):
             bad("largest_connected_component/raised", f"largest_connected_component raised ({L['$err']})")
@@ -528,8 +524,7 @@ def conn_pred(req, snap, nodes, mem):
             bad("largest_connected_component/not-a-component", f"largest_connected_component = {L}, the classes are {exp}")
         elif len(L) != big:
             bad("largest_connected_component/not-largest", f"largest_connected_component = {L}, the classes are {exp}")
-        elif L != first:
-            bad("largest_connected_component/not-first-largest", f"largest_connected_component = {L}, the first of maximal size is {first}")
+        # ("a largest component": no tie-break is documented, any class of maximal size is accepted)
     for n, v in snap["ncc"]:
         cls_ = next((c for c in exp if n in c), None)
         if cls_ is None:
@@ -563,9 +558,11 @@ def first_maximal_is_string_first(enc):
     return False
 
 
-def expected_cleanup(fl, nodes, mem, eo):
+def expected_cleanup(fl, nodes, mem, eo, prefer=None):
     """the network the definition asks for, by brute force: (nodes kept, edges kept, nothing left at the connected
-    step); None when a class of repeated edges has IDs that Python's sorted cannot order"""
+    step); None when a class of repeated edges has IDs that Python's sorted cannot order.  `prefer`: a node set; when
+    several components are largest, the one equal to `prefer` is taken ("a largest component": no tie-break is promised),
+    otherwise the first"""
     keep = list(eo)
     if not fl["multiedges"]:
         classes = {}
@@ -589,7 +586,8 @@ def expected_cleanup(fl, nodes, mem, eo):
         null = not comps
         if comps:
             big = max(len(c) for c in comps)
-            first = next(c for c in comps if len(c) == big)
+            largest = [c for c in comps if len(c) == big]
+            first = next((c for c in largest if prefer is not None and set(c) == set(prefer)), largest[0])
             kn = [n for n in kn if n in set(first)]
             keep = [e for e in keep if mem[e] <= set(first)]        # (empty edges stay: they exclude nothing)
     return kn, keep, null
@@ -635,7 +633,7 @@ def cleanup_pred(req, nodes, mem, eo, ne, ee, net, rn, rmem, reo, rne, ree, rnet
         bad("edge-not-original", f"{oe}")
         return fails
     # --- brute-force expected network (sets), independent of the library
-    exp = expected_cleanup(fl, nodes, mem, eo)
+    exp = expected_cleanup(fl, nodes, mem, eo, prefer={on[n] for n in rn})
     if exp is None:
         return fails
     kn, keep, _ = exp
@@ -891,8 +889,9 @@ class _View:
         return (self.nodes, self.edges, self.mem, self.nattr, self.eattr, self.net, self.frozen)
 
 
-def _other_expected(req, V):
-    """the network the definition asks for, by brute force: (surviving nodes in order, surviving edges in order)"""
+def _other_expected(req, V, prefer=None):
+    """the network the definition asks for, by brute force: (surviving nodes in order, surviving edges in order);
+    `prefer`: the node set of the result (among several largest components any one is accepted)"""
     f = req["f"]
     und = {e: t | h for e, (t, h) in V.mem.items()}
     kn, keep = list(V.nodes), list(V.edges)
@@ -903,7 +902,8 @@ def _other_expected(req, V):
         comps = components(kn, {e: und[e] for e in keep})
         if comps:
             big = max(len(c) for c in comps)
-            first = set(next(c for c in comps if len(c) == big))
+            largest = [set(c) for c in comps if len(c) == big]
+            first = next((c for c in largest if prefer is not None and c == set(prefer)), largest[0])
             kn = [n for n in kn if n in first]
     # a simplex / edge survives iff all its nodes do (only nodes outside every kept edge are ever deleted)
     keep = [e for e in keep if und[e] <= set(kn)]
@@ -1002,7 +1002,7 @@ def run_other(req):
         on = {n: n for n in VR.nodes}
         oe = {e: e for e in VR.edges}
     # --- exactly the expected survivors, in the original order, with their members and attributes
-    kn, keep = _other_expected(req, V0)
+    kn, keep = _other_expected(req, V0, prefer=set(on.values()))
     got_n, got_e = [on[n] for n in VR.nodes], [oe[e] for e in VR.edges]
     same = lambda x, y: list(map(repr, x)) == list(map(repr, y))
     if not same(got_n, kn):
@@ -1170,6 +1170,9 @@ def correspond_other(ctx, done, results):
             continue
         ctx.traces += 1
         mo = norm_other(r["f"], canon(m))
+        if mo != im and not fails and other_largest(r, im):
+            ctx.stats["other-largest-component:" + r["f"]] += 1
+            continue
         if mo != im:
             if fails:
                 ctx.stats["disagree-on-violation:" + r["f"]] += 1
@@ -1230,6 +1233,44 @@ def evaluate(ctx, reqs):
     return done, results
 
 
+def _orig_nodes(im, relabelled):
+    """the original labels of the nodes of a snapshot (read from the 'label' attribute after a relabelling)"""
+    if not relabelled:
+        return [dec_id(n) for n in im["nodes"]]
+    na = {json.dumps(n): {k: v for k, v in a} for n, a in im["nattr"]}
+    return [dec_label(na.get(json.dumps(n), {}).get("label")) for n in im["nodes"]]
+
+
+def other_largest(r, im):
+    """True when several components are largest and the implementation kept another one than the first (the model keeps
+    the first; the statement says "a largest component", so this is not a disagreement — the predicate has judged it)"""
+    try:
+        f = r["f"]
+        if f in OTHER_SITE:
+            if f != "sc_cleanup" or not r.get("connected") or "nodes" not in im:
+                return False
+            V = _View(build_enc(r["H"]), False)
+            got = _orig_nodes(im, r.get("relabel"))
+            return _other_expected(r, V)[0] != _other_expected(r, V, prefer=set(got))[0]
+        if "nodes" not in im:
+            return False
+        nodes, mem, eo, *_ = _net(r["H"])
+        if f == "lch":
+            comps = components(nodes, mem)
+            big = max((len(c) for c in comps), default=0)
+            first = next((c for c in comps if len(c) == big), [])
+            rn = [dec_id(n) for n in im["nodes"]]
+            return len(rn) == big and set(rn) != set(first)
+        if f == "cleanup" and r.get("connected"):
+            fl = {k: r[k] for k in FLAGS}
+            got = _orig_nodes(im, fl["relabel"])
+            a, b = expected_cleanup(fl, nodes, mem, eo), expected_cleanup(fl, nodes, mem, eo, prefer=set(got))
+            return a is not None and b is not None and a[0] != b[0]
+    except Exception:  # noqa
+        return False
+    return False
+
+
 def correspond(ctx, done, results):
     resps = run_driver("C19", done)
     dis = []
@@ -1244,8 +1285,14 @@ def correspond(ctx, done, results):
         if r["f"] == "components" and not r["H"]["nodes"]:
             # the null network: whether is_connected / largest_connected_component raise is left open (see conn_pred)
             mo = dict(mo, connected=im.get("connected"), largest=im.get("largest"))
+        if r["f"] == "components" and isinstance(im.get("largest"), list) and isinstance(mo.get("largest"), list) \
+                and len(im["largest"]) == len(mo["largest"]) and im["largest"] in (im.get("comps") or []):
+            mo = dict(mo, largest=im["largest"])      # a tie: any class of maximal size is "a largest component"
         if r["f"] == "lch" and not r["H"]["nodes"] and im["out"] == "err:value":
             ctx.stats["lch-null-network-raises"] += 1      # accepted either way (see assumptions)
+            continue
+        if mo != im and not fails and other_largest(r, im):
+            ctx.stats["other-largest-component:" + r["f"]] += 1     # a tie: the model keeps the first, any one is accepted
             continue
         if mo != im:
             if fails:
@@ -1266,7 +1313,7 @@ def correspond(ctx, done, results):
     return dis
 
 
-def load_corpus(other=False):
+def load_corpus(other=False, r2=False):
     out = []
     for p in sorted(glob.glob(os.path.join(VERIF, "corpus", "C19", "*.json"))):
         try:
@@ -1274,6 +1321,8 @@ def load_corpus(other=False):
             out.append(j.get("case", j))
         except Exception:  # noqa
             pass
+    if r2:
+        return [c for c in out if isinstance(c, dict) and c.get("f") == "r2"]
     return [c for c in out if isinstance(c, dict) and "f" in c and ("H" in c or "DH" in c) and (c["f"] in OTHER_SITE) == other]
 
 
@@ -1310,6 +1359,9 @@ def run(ctx):
     oreqs = [c for c in load_corpus(other=True)] + list(other_awkward_cases()) + [gen_other(rng) for _ in range(ctx.n(1500, 8000))]
     odone, oresults = evaluate_other(ctx, oreqs)
     dis = correspond(ctx, done, results) + correspond_other(ctx, odone, oresults)
+    # second-round families (predicate only; see harness/c19_r2.py): other classes, held objects, exotic labels,
+    # containers, one large network
+    R2.evaluate(ctx, copy.deepcopy(R2.FIXED) + load_corpus(r2=True) + R2.gen_cases(rng, ctx.n(8, 100)) + R2.regime_cases(rng))
 
     ctx.extra["unmodelled_cases"] = ctx.stats.get("unmodelled", 0)      # requests the model declined (skipped in the comparison)
     if ctx.stats.get("unmodelled", 0) > 0.05 * max(1, len(done) + len(odone)):
@@ -1332,11 +1384,17 @@ def run(ctx):
                 "directed hypergraphs with node / edge / network attributes (sometimes frozen, a 'label' key already present, empty directed "
                 "edges, nodes in both tail and head) x cleanup flag settings x in_place x label_attribute; corpus/C19 first; "
                 "non-trivial = distinct (request, result) with an edge of >=2 members")
-    ctx.assumptions = ["IDs restricted to int/str/tuple-of-atoms; bool/float IDs outside the model",
+    ctx.rule += ("; second-round families (harness/c19_r2.py, predicate only): SimplicialComplex / DiHypergraph / trivial subclasses through every "
+                 "function, held objects (call, count-preserving or ordinary edit, same and other arguments again), tuple node labels and edge IDs, "
+                 "date / Enum / frozenset / bytes node labels, selection containers (list, tuple, set, frozenset, dict view, generator, ndarray), one "
+                 "large hypergraph (76 nodes, 135 parallel edges, labels and IDs around 2**53) and one large complex per run")
+    ctx.assumptions = ["cases compared with the model: node labels int / str / mixed, edge IDs int / str / tuples of ints or strs in the hand-written awkward "
+                       "networks only; tuple node labels, tuple edge IDs and labels float() cannot read are generated in the second-round families "
+                       "(predicate only); bool/float IDs outside both",
+                       "among several components of maximal size any one is accepted (the statement says 'a largest component'); the model keeps the first, "
+                       "a tie resolved differently is not counted as a disagreement",
                        "node order of a dual and edge order of a complement come from Python set iteration and are compared as sets",
                        "SimplicialComplex.copy on a closed complex is modelled as an equal unfrozen network",
-                       "from_max_simplices on a complex whose first maximal simplex lists a string before a non-string label "
-                       "is rejected by add_edges_from's format sniffing; treated as outside the function's domain",
                        "cleanup / largest_connected_hypergraph are modelled as repaired in /repo 4b127bb (the null network is left "
                        "alone); largest_connected_hypergraph(null network) raising ValueError (older trees) is still accepted",
                        "edge IDs of one kind (int, str, tuple of ints, tuple of strs) are ordered as Python does; every other class of "
@@ -1355,6 +1413,12 @@ def run(ctx):
 def replay(ctx, path):
     j = json.load(open(path))
     case = j.get("case", j)
+    if case.get("f") == "r2":
+        res = R2.run_case(case)
+        print(json.dumps({"case": case, "predicate_failures": [[s_, c, d] for s_, c, d, _ in res]}, default=repr)[:4000])
+        for s_, c, d, _ in res:
+            ctx.violation(s_, c, case, detail=d)
+        return finish(ctx, trusted_base=TRUSTED_COMMON)
     if case.get("f") in OTHER_SITE:
         r, snap, fails = run_other(copy.deepcopy(case))
         print(json.dumps({"request": r, "impl": norm_other(r["f"], snap), "predicate_failures": fails}, default=repr)[:4000])
